@@ -26,9 +26,15 @@ _SOLVED = {}
 
 def solved(name):
     if name not in _SOLVED:
-        if name == "Z4":       # R3 + bus 4 behind the fused buses 2=3, which carry no injection (zero-injection node)
+        if name == "W3":       # three-winding transformer net with a second, out-of-service trafo3w BEFORE the active one in the table
+            net = na.base("W3")
+            t = net.trafo3w.loc[[0]].copy()
+            t.index = [1]
+            net.trafo3w = __import__("pandas").concat([net.trafo3w, t])
+            net.trafo3w.at[0, "in_service"] = False
+        elif name == "Z4":       # R3 + bus 4 behind the fused buses 2=3, which carry no injection (zero-injection node)
             net = na.build({"base": "R3", "devs": [["bus", 2, True], ["load", 4, 0.8, 0.2, "P", 1., True]]})
-        else:
+        elif name != "W3":
             net = na.base(name)
         if name == "R3":
             pp.create_load(net, 3, 0.8, 0.2)
@@ -54,6 +60,9 @@ def meas_value(net, m):
     if et == "trafo":
         col = {"p": "p_%s_mw", "q": "q_%s_mvar", "i": "i_%s_ka"}[t] % side
         return float(net.res_trafo.at[el, col])
+    if et == "trafo3w":
+        col = {"p": "p_%s_mw", "q": "q_%s_mvar", "i": "i_%s_ka"}[t] % side
+        return float(net.res_trafo3w.at[el, col])
     raise ValueError(m)
 
 
@@ -62,6 +71,13 @@ def core_sets(name, net):
     slack = int(net.ext_grid.bus.iloc[0])
     A = [["v", "bus", slack, None]] + [[t, "bus", b, None] for b in buses for t in ("p", "q")]
     # spanning tree flows: radial nets use all branches; M4 uses lines 0,1,2 (ring without closing line and chord)
+    if name == "W3":
+        A = [["v", "bus", slack, None]] + [[t, "bus", b, None] for b in buses for t in ("p", "q")]
+        F = [["v", "bus", slack, None]] + [[t, "trafo3w", 1, sd] for sd in ("mv", "lv") for t in ("p", "q")] + \
+            [["p", "line", 0, "from"], ["q", "line", 0, "from"]]
+        G = [["v", "bus", 1, None]] + [[t, "trafo3w", 1, sd] for sd in ("hv", "lv") for t in ("p", "q")] + \
+            [["p", "line", 0, "to"], ["q", "line", 0, "to"], ["p", "bus", 1, None], ["q", "bus", 1, None]]
+        return {"A": A, "F": F, "G": G}
     if name == "Z4":
         inj = [[t, "bus", b, None] for b in (0, 1, 4) for t in ("p", "q")]
         A = [["v", "bus", slack, None]] + inj
@@ -83,7 +99,14 @@ def core_sets(name, net):
     # node is interpreted as the node's measurement (fuse_buses_with_bb_switch="all", documented) - not used here
     C = [["v", "bus", slack, None]] + [[t, "bus", b, None] for b in buses[1:] for t in ("p", "q")] + \
         [[t, tree[0][0], tree[0][1], sides[tree[0][0]][0]] for t in ("p", "q")]
-    return {"A": A, "B1": B1, "B2": B2, "C": C}
+    # D: like A, but the Q injection of the last tree branch's far bus is replaced by the Q flow arriving there
+    et, el = tree[-1]
+    farbus = int(net[et].at[el, {"line": "to_bus", "trafo": "lv_bus"}[et]])
+    from mc import balance
+    node = balance.fused_nodes(net)
+    fused = {b for b in buses if node[b] == node[farbus]}      # never a partial injection measurement on a fused node
+    D = [m for m in A if not (m[0] == "q" and m[1] == "bus" and m[2] in fused)] + [["q", et, el, sides[et][1]]]
+    return {"A": A, "B1": B1, "B2": B2, "C": C, "D": D}
 
 
 def extras(name, net):
@@ -95,6 +118,10 @@ def extras(name, net):
     if len(net.trafo):
         ex.append(["q", "trafo", 0, "lv"])
         ex.append(["i", "trafo", 0, "hv"])
+        ex.append(["i", "trafo", 0, "lv"])
+    if len(net.trafo3w):
+        ex = [["i", "line", 0, "from"], ["v", "bus", 2, None], ["p", "trafo3w", 1, "hv"], ["q", "trafo3w", 1, "mv"],
+              ["i", "trafo3w", 1, "lv"], ["i", "trafo3w", 1, "mv"]]
     return ex
 
 
@@ -136,7 +163,8 @@ def run_case(case):
         vs.append(core.violation("voltages_equal_pf", {"bus": int(net.bus.index[i]), "pf": [net.res_bus.vm_pu.iloc[i], net.res_bus.va_degree.iloc[i]],
                                                        "est": [net.res_bus_est.vm_pu.iloc[i], net.res_bus_est.va_degree.iloc[i]]},
                                  tokens=toks, klass="voltage"))
-    for tab, cols in (("line", ["p_from_mw", "q_from_mvar", "p_to_mw", "q_to_mvar"]), ("trafo", ["p_hv_mw", "q_hv_mvar", "p_lv_mw", "q_lv_mvar"])):
+    for tab, cols in (("line", ["p_from_mw", "q_from_mvar", "p_to_mw", "q_to_mvar"]), ("trafo", ["p_hv_mw", "q_hv_mvar", "p_lv_mw", "q_lv_mvar"]),
+                      ("trafo3w", ["p_hv_mw", "q_hv_mvar", "p_mv_mw", "q_mv_mvar", "p_lv_mw", "q_lv_mvar"])):
         if not len(net[tab]) or vs:
             continue
         a, b = net["res_" + tab][cols].values, net["res_%s_est" % tab][cols].values
@@ -194,7 +222,7 @@ def run_case(case):
 
 def gen_cases(tier):
     cases = []
-    for name in ("R3", "M4", "T3", "Z4"):
+    for name in ("R3", "M4", "T3", "Z4", "W3"):
         net = solved(name)
         cs = core_sets(name, net)
         ex = extras(name, net)
